@@ -186,7 +186,9 @@ impl ReadXml for Maybe<Candidate> {
                     if tag.local_name().as_ref() == b"name" && name.is_none() =>
                 {
                     let text = reader.read_text(tag.to_end().name())?;
-                    name = Some(Name::new(unescape(&text).map_err(quick_xml::Error::from)?));
+                    name = Some(Name::new(
+                        unescape(text.trim()).map_err(quick_xml::Error::from)?,
+                    ));
                 }
                 (ResolveResult::Bound(XNM), Event::Start(tag))
                     if tag.local_name().as_ref() == b"then" && !reject_policy =>
@@ -246,7 +248,9 @@ impl ReadXml for Maybe<Installed> {
                 {
                     tracing::debug!(?tag);
                     let text = reader.read_text(tag.to_end().name())?;
-                    name = Some(Name::new(unescape(&text).map_err(quick_xml::Error::from)?));
+                    name = Some(Name::new(
+                        unescape(text.trim()).map_err(quick_xml::Error::from)?,
+                    ));
                     tracing::debug!(?name);
                 }
                 (ResolveResult::Bound(XNM), Event::Start(tag))
@@ -315,6 +319,14 @@ impl ReadXml for Maybe<Installed> {
     }
 }
 
+/// Element text without the surrounding whitespace (`read_text` returns the raw span).
+fn trimmed(text: Cow<'_, str>) -> Cow<'_, str> {
+    match text {
+        Cow::Borrowed(text) => Cow::Borrowed(text.trim()),
+        Cow::Owned(text) => Cow::Owned(text.trim().to_owned()),
+    }
+}
+
 trait BorrowedReadXml<'i>: Sized + 'i {
     fn borrowed_read_xml(
         reader: &mut NsReader<&'i [u8]>,
@@ -346,7 +358,7 @@ impl<'i> BorrowedReadXml<'i> for Term<'i> {
                     if tag.local_name().as_ref() == b"name" && name.is_none() =>
                 {
                     tracing::trace!(?tag);
-                    name = Some(reader.read_text(tag.to_end().name())?);
+                    name = Some(trimmed(reader.read_text(tag.to_end().name())?));
                 }
                 (ResolveResult::Bound(XNM), Event::Start(tag))
                     if tag.local_name().as_ref() == b"from" && from.is_none() =>
@@ -480,7 +492,7 @@ impl<'i> BorrowedReadXml<'i> for TermFrom<'i> {
                     if tag.local_name().as_ref() == b"family" && family.is_none() =>
                 {
                     tracing::trace!(?tag);
-                    family = Some(reader.read_text(tag.to_end().name())?);
+                    family = Some(trimmed(reader.read_text(tag.to_end().name())?));
                 }
                 (ResolveResult::Bound(XNM), Event::Start(tag))
                     if tag.local_name().as_ref() == b"route-filter" =>
@@ -526,14 +538,14 @@ impl<'i> BorrowedReadXml<'i> for RouteFilter<'i> {
                     if tag.local_name().as_ref() == b"address" && address.is_none() =>
                 {
                     tracing::trace!(?tag);
-                    address = Some(reader.read_text(tag.to_end().name())?);
+                    address = Some(trimmed(reader.read_text(tag.to_end().name())?));
                 }
                 (ResolveResult::Bound(XNM), Event::Start(tag))
                     if tag.local_name().as_ref() == b"choice-ident"
                         && prefix_length_range.is_none() =>
                 {
                     tracing::trace!(?tag);
-                    let ident = reader.read_text(tag.to_end().name())?;
+                    let ident = trimmed(reader.read_text(tag.to_end().name())?);
                     if ident.as_ref() != "prefix-length-range" {
                         return Err(ReadError::Other(
                             anyhow!("unexpected 'choice-ident' value '{ident}'").into(),
@@ -545,7 +557,8 @@ impl<'i> BorrowedReadXml<'i> for RouteFilter<'i> {
                                 if tag.local_name().as_ref() == b"choice-value" =>
                             {
                                 tracing::trace!(?tag);
-                                prefix_length_range = Some(reader.read_text(tag.to_end().name())?);
+                                prefix_length_range =
+                                    Some(trimmed(reader.read_text(tag.to_end().name())?));
                                 break;
                             }
                             (_, Event::Comment(_)) => continue,
